@@ -185,6 +185,8 @@ def compute_unwindset(name, slot_dir, kk, log_path):
                 n = k + 2
         elif 'DefaultPrechecker' in lid and 'pinned' in lid:
             n = 6
+        elif 'Walker' in lid and 'set_board_pos' in lid:
+            n = 11                                       # chains of at most 9 moves in the walker harnesses
         elif 'retain' in lid or ('ArrayVec' in lid and 'drop' not in lid):
             n = 8 + 12 * kp + 27 * kn * 3 + 8 * kn + 10
         if n is not None:
